@@ -25,6 +25,11 @@ import json
 man = json.loads((common.VERIF / "MANIFEST.json").read_text())
 targets = [f"theories/Props/{c['property_id']}.vo" for c in man["checks"]
            if (COQ / "theories" / "Props" / f"{c['property_id']}.v").exists()]
+claimed = {c["property_id"] for c in man["checks"]}
+# companion property files (Props/<id><Suffix>.v, e.g. C10Types.v) of claimed properties
+for f in sorted((COQ / "theories" / "Props").glob("C[0-9][0-9]?*.v")):
+    if f.stem[:3] in claimed and f"theories/Props/{f.stem}.vo" not in targets:
+        targets.append(f"theories/Props/{f.stem}.vo")
 ok, out = coq_make(["-k", *targets], timeout=3000)
 print(out[-3000:])
 if not ok:
